@@ -1,8 +1,34 @@
-from .base import Check
+"""C08 -- MeshGL export and re-import is lossless (fault-free arm of the
+storage simulation): every Manifold a seeded program reaches is exported,
+passed through SimStore, re-imported and compared on a canonical form that
+removes numbering only."""
+import gen
+from .progbase import ProgCheck
+
+MIX = dict(gen.MIX_GENERAL)
+MIX.update({"smoothout": 5, "smoothnorm": 2, "smoothmesh": 2, "calcnorm": 4, "setprops": 4, "add": 7, "sub": 7, "mirror": 3, "asorig": 2,
+            "rt64": 2, "rt32": 1, "minksum": 0, "minkdiff": 0, "levelset": 0, "compose": 2, "split": 2, "refine": 3})
 
 
-class Stub(Check):
+class C08(ProgCheck):
     prop = "C08"
+    flag = "c08"
+    level = "exploration"
+    flavours = ["ser", "ser-asan", "par"]
+    assumptions = [
+        "equality is on a canonical form: one record per triangle (original ID, flags, run transform with an absent transform "
+        "read as identity, face ID, three corners with position bits, property bits and the tangent of the halfedge leaving the "
+        "corner) rotated to its least corner, records sorted; channels of runs flagged as normals compared after normalisation",
+        "the only simulator-owned nondeterminism is the store (fault-free) and, in the parallel flavour, the schedule of the ingest",
+    ]
+    arms = [
+        ("general", 70, {"mix": MIX, "nops": (8, 24), "flavours": ["ser", "ser", "ser-asan", "par"], "thr": [64, 16]}),
+    ]
+
+    def finish_cov(self):
+        self.cov["rule"] = ("one evaluation = one seeded program with the round-trip oracle applied to every non-empty Manifold it "
+                            "materialises (64-bit path, merge-vector sufficiency, Merge(), 32-bit structure); distinct = distinct "
+                            "(program, decision hash); non-trivial = at least 3 objects round-tripped")
 
 
-CHECK = Stub()
+CHECK = C08()
